@@ -379,7 +379,7 @@ func runC17(in *bufio.Scanner, out *bufio.Writer) {
 			go func(v vigil.Vigil, cw *c17World) { defer cw.ceaseWG.Done(); v.CeaseVigil(); cw.ceaseFin.Add(1) }(w.v, w)
 			d := 3 * time.Second
 			if w.lockHeld() {
-				d = 150 * time.Millisecond // with the mutex around the decrement it cannot get there now
+				d = 100 * time.Millisecond // with the mutex around the decrement it cannot get there now
 			}
 			res := "held"
 			if w.waitEvent("dec", d) {
